@@ -24,7 +24,9 @@ RULE = (
     "documented precedence table (+ - < * / < ^ right-assoc < prefix < postfix) with only the necessary "
     "parentheses plus random redundant ones and whitespace; the three implementations are imported from a "
     "scratch copy of examples/calculator whose generated parsers are regenerated from the current tree "
-    "(with and without optimizer) and must all evaluate to the reference value under 3 variable "
+    "(with and without optimizer; plus, deterministically, every ordered triple of infix operators in a flat "
+    "chain of four operands with one unary minus or factorial at each position, printed without parentheses) "
+    "and must all evaluate to the reference value under 3 variable "
     "environments. Non-trivial: JSON document of depth >= 2 with a number and an escape; expression with "
     ">= 2 operators; distinct by hash of the document / expression text."
 )
